@@ -83,6 +83,21 @@ claim("C13", "DESIGN.md §4 C13",
       "Decides source-order consistency and sibling agreement, not the line/column arithmetic: (O1) for all node kinds the fold visits range-carrying children in source order; (O2) the four interleaved pairs are zipped or located by look-ahead; (O3) overrides fold decorators before the node start and keep the fold contract; (S1) Random/Linear locators agree up to the locate call, the look-ahead one only uses locate_only; (T1) all components treat exactly LF and CR (CR LF once) as line breaks; (S2) locate_inner reads line facts only through the selected state; (R1) under all-nodes-with-ranges the optional-range nodes are monotone (three known findings shared with C02).",
       "Static rule discharge over ast/src/source_locator.rs, gen/fold.rs, gen/generic.rs, core/src/source_code.rs, vendored/src/source_location/*.rs, parser/src/lexer.rs." + COMMON_NOTE)
 
+claim("C03", "DESIGN.md §4 C03, §3.5",
+      "static analysis: panic-obligation inventory from resolved MIR (every unwrap/expect/panic/index/remove/TextRange::new/TextSize arithmetic/unchecked call and every Overflow/Bounds/Division assert outside the LALRPOP internals, which G1 covers) against a reviewed site table; flow-sensitive dominance check of every next_char().unwrap(); grammar non-emptiness and nullability rules for action unwraps and asserting range constructors; structural loop-progress rule; SCC recursion inventory of the call graph; error-offset provenance; unsafe inventory",
+      "Decides: (N1) no panic-capable site exists in rustpython_parser beyond the 63 reviewed (function, kind) rows, each with a discharge rule; (D.some/D.const) every next_char().unwrap() is dominated by a Some-test of the window slot with no consumption in between, window indices are constants, hex/octal escape arithmetic is bounded by literal digit counts, length-dependent indexing sits in the arm fixing the length; (A1/R1) every unwrap in a grammar action is a validated range-end chain or on a grammar-non-empty value, and every asserting range brackets a non-nullable symbol; (P1) every loop iteration path consumes or exits, EOF ends the token stream; (C1) the only recursive cycles are set_context and the parser<->f-string cycle, cut at nested >= 2 and re-entered on a strict substring; (E1/E2/U2/N2) every LALRPOP error variant is mapped, every error offset is a position inside the input (known: empty Stmt / empty expression input at a non-zero start offset); (U1) two reviewed unsafe blocks. Not decided: the polynomial time bound, stack depth on adversarial nesting, panics inside dependency crates.",
+      "Static rule discharge over MIR facts of rustpython_parser and parser/src/*.rs, python.lalrpop. Assumed (printed in the evidence): counters bounded by the input length < 2^32, start offset + length < 2^32 (the property's own quantifier)." + COMMON_NOTE)
+
+claim("C18", "DESIGN.md §4 C18",
+      "static analysis: panic-obligation inventory of format.rs from resolved MIR against a reviewed site table; index-provenance rules; finite-domain evaluation of validate_format x get_separator_interval by interpreting the subject's match arms (allowed subset of handled); inverse-table check of FormatType parse/print; parse-order and alignment-order shape rules",
+      "Decides no-panic and table agreement, not equality with format(): (N1) no panic-capable site in format.rs beyond the reviewed rows; (N2) every byte index used for slicing/truncation comes from char_indices()/find()/len() of the same string, string precision counts characters before padding, widths/precisions are bounded to i32 at parse time; (T2) for every grouping x presentation type that validate_format lets through and that reaches the separator code, get_separator_interval yields 3 or 4 (never its panic arm); (T1) the 16 presentation types parse and print inversely; (Q1) fields are parsed in mini-language order, trailing text rejected, 0-flag semantics; (A1) per-alignment concatenation order and fill count. Four genuine panics found here were repaired in /repo (see known_findings.json fixed:).",
+      "Static rule discharge over MIR facts of rustpython_format and format/src/format.rs. Assumed: rendered numbers are shorter than 2^31 bytes." + COMMON_NOTE)
+
+claim("C19", "DESIGN.md §4 C19",
+      "static analysis: panic-obligation inventory of cformat.rs from resolved MIR against a reviewed site table; flow-sensitive dominance of every iter.next().unwrap() by a successful peek(); stated-belief rule on unsigned arithmetic (cmp::max(0, unsigned), raw subtraction); flag/conversion table evaluation; parse-order and padding shape rules",
+      "Decides no-panic and table agreement, not equality with the % operator: (N1) no panic-capable site beyond the reviewed rows (the two unreachable! are the documented caller contract); (D.peek) all 9 iter.next().unwrap() follow a peek() that returned Some; (N2) no unsigned underflow: fills use saturating_sub, quantities use checked i32 arithmetic, bytes precision slices at min(len, precision); (T1) 5 flags, 17 conversion characters, at most one length modifier skipped, %c ignores precision; (Q1) key, flags, width, precision, length, type order, %% and trailing-% handling; (A1) LEFT_ADJUST side, sign/prefix before zero fill and counted in the width.",
+      "Static rule discharge over MIR facts of rustpython_format and format/src/cformat.rs." + COMMON_NOTE)
+
 def main():
     props = [json.loads(l) for l in open(os.path.join(HERE, "properties.jsonl"))]
     checks, na = [], []
